@@ -112,21 +112,19 @@ Theorem c01_load_grp : forall f s n n1 c,
   try_load f s n = (n1, inl c) -> c_lastid c = t_seqid s /\ c_delid c = t_delid s.
 Proof. intros f s n n1 c H. apply try_load_cases in H. subst c. split; reflexivity. Qed.
 
-(* "delID is restored from the stored delid by every load": refuted by initTopicSys, which
-   never assigns t.delID; true for every other kind. *)
-Definition c01_load_restores_delid_statement : Prop := forall kd f s n u1 u2 s' c n' ns,
-  init_topic kd f s n u1 u2 = LOk s' c n' ns -> carries_messages kd = true -> l_delid c = t_delid s'.
-Theorem c01_load_restores_delid_refuted : ~ c01_load_restores_delid_statement.
-Proof.
-  intros H.
-  specialize (H KSys NoFault (mkStore true 5 3 0 0 0 [] [] [] []) 0%nat 0%N 0%N
-                (mkStore true 5 3 0 0 0 [] [] [] []) (mkLC 5 0 [] []) 2%nat false eq_refl eq_refl).
-  vm_compute in H. discriminate.
-Qed.
-Theorem c01_load_restores_delid_partial : forall kd f s n u1 u2 s' c n' ns,
-  init_topic kd f s n u1 u2 = LOk s' c n' ns -> carries_messages kd = true -> kd <> KSys ->
+(* ... and delID is the delid of the stored topic row, which the load does not change: every
+   kind that carries messages, every branch (initTopicSys since /repo 91f0ab5). *)
+Theorem c01_load_restores_delid : forall kd f s n u1 u2 s' c n' ns,
+  init_topic kd f s n u1 u2 = LOk s' c n' ns -> carries_messages kd = true ->
   l_delid c = t_delid s' /\ (t_exists s = true -> t_delid s' = t_delid s).
 Proof. exact load_restores_delid. Qed.
+
+(* The loader as it was before /repo 91f0ab5 (initTopicSys did not assign t.delID,
+   [init_sys_unrepaired]) refutes the statement: a 'sys' row with seqid 5, delid 3 loads delID 0. *)
+Definition c01_load_restores_delid_unrepaired_statement : Prop := forall kd f s n u1 u2 s' c n' ns,
+  init_topic_unrepaired kd f s n u1 u2 = LOk s' c n' ns -> carries_messages kd = true -> l_delid c = t_delid s'.
+Theorem c01_load_restores_delid_unrepaired_refuted : ~ c01_load_restores_delid_unrepaired_statement.
+Proof. exact load_restores_delid_unrepaired_refuted. Qed.
 
 (* In every reachable state of a p2p / sys history: stored numbers are unique and lie in
    1..seqid, a topic row that does not exist (p2p topic deleted by its last unsubscribe) has
@@ -196,8 +194,8 @@ Qed.
 
 Print Assumptions c01_load_restores_lastid.
 Print Assumptions c01_load_grp.
-Print Assumptions c01_load_restores_delid_refuted.
-Print Assumptions c01_load_restores_delid_partial.
+Print Assumptions c01_load_restores_delid.
+Print Assumptions c01_load_restores_delid_unrepaired_refuted.
 Print Assumptions c01_kinds_invariant.
 Print Assumptions c01_kinds_publish.
 Print Assumptions c01_kinds_copies_agree.
